@@ -265,12 +265,52 @@ func (s *Fn) allocEscapes(a *ssa.Alloc) (passedToCall bool, other bool) {
 		case *ssa.Call:
 			passedToCall = true
 		case *ssa.MakeClosure:
-			other = true
+			// captured by a closure that only reads it, and the closure value goes nowhere but into calls: the
+			// variable changes only where this function changes it
+			if !readOnlyCapture(x, a) {
+				other = true
+			}
 		default:
 			other = true
 		}
 	}
 	return
+}
+
+// readOnlyCapture: the closure mc captures cell a, never stores through the
+// captured variable (nor hands its address on), and mc itself is used only as
+// the callee or an argument of calls.
+func readOnlyCapture(mc *ssa.MakeClosure, a *ssa.Alloc) bool {
+	fn, ok := mc.Fn.(*ssa.Function)
+	if !ok {
+		return false
+	}
+	for i, b := range mc.Bindings {
+		if b != ssa.Value(a) || i >= len(fn.FreeVars) {
+			continue
+		}
+		for _, ref := range *fn.FreeVars[i].Referrers() {
+			switch y := ref.(type) {
+			case *ssa.UnOp:
+				if y.Op != token.MUL {
+					return false
+				}
+			case *ssa.DebugRef:
+			default:
+				return false // stored to, re-captured, its address passed on ...
+			}
+		}
+	}
+	for _, ref := range *mc.Referrers() {
+		switch y := ref.(type) {
+		case *ssa.Call:
+			_ = y
+		case *ssa.DebugRef:
+		default:
+			return false
+		}
+	}
+	return true
 }
 
 // clobbers reports whether instruction in may change the memory at key k.
